@@ -71,6 +71,14 @@ class SetTr:
                 if ty != "map":
                     _fail(n, ".keys() of a non-map")
                 return (f"(ts_keys {m})", "set")
+            # m.get(k, frozenset()) / m.get(k, set()): the empty set for a missing key -- what ts_get gives anyway
+            if f.attr == "get" and len(n.args) == 2 and not n.keywords and isinstance(n.args[1], ast.Call) and not n.args[1].args and not n.args[1].keywords \
+                    and isinstance(n.args[1].func, ast.Name) and n.args[1].func.id in ("frozenset", "set"):
+                m, ty = self.tr(f.value)
+                k, kty = self.tr(n.args[0])
+                if ty != "map" or kty != "elem":
+                    _fail(n, ".get on a non-map / non-element key")
+                return (f"(ts_get {m} {k})", "set")
             if f.attr == "get" and len(n.args) == 1 and not n.keywords:
                 m, ty = self.tr(f.value)
                 k, kty = self.tr(n.args[0])
@@ -441,6 +449,30 @@ def _call_sites(tree):
         "  flat_map (fun addr => map (pair addr) (run_target_functions tsel esel test methods_of addr)) (resolve_target_contracts tc ec tsel deployed test).\n")
 
 
+def _setup_visited(tree):
+    """run_contract: how the frontier caches are initialised from the post-setUp state:
+    `ctx.frontier_states[0] = [setup_ex]`, and is the setUp state registered in ctx.visited?"""
+    fn = find_function(tree, "run_contract")
+    top = [ast.unparse(s) for s in fn.body]
+    if top.count("ctx.frontier_states[0] = [setup_ex]") != 1:
+        raise TranslateError("run_contract: `ctx.frontier_states[0] = [setup_ex]` expected once at the top level")
+    i0 = top.index("ctx.frontier_states[0] = [setup_ex]")
+    runs = [i for i, s in enumerate(top) if "run_tests(" in s]
+    if len(runs) != 1 or runs[0] < i0:
+        raise TranslateError("run_contract: the single call of run_tests must follow the initialisation of the frontier")
+    uses = [n for n in ast.walk(fn) if isinstance(n, ast.Attribute) and n.attr == "visited"]
+    if not uses:
+        flag = False
+    elif len(uses) == 1 and top.count("ctx.visited.add(get_state_id(setup_ex))") == 1 and i0 < top.index("ctx.visited.add(get_state_id(setup_ex))") < runs[0]:
+        flag = True
+    else:
+        raise TranslateError("run_contract: ctx.visited is used in an unexpected way")
+    if len([n for n in ast.walk(fn) if isinstance(n, ast.Attribute) and n.attr == "frontier_states"]) != 1:
+        raise TranslateError("run_contract: ctx.frontier_states is used in an unexpected way")
+    return ("(* run_contract: ctx.frontier_states[0] = [setup_ex]; is the setUp state registered in ctx.visited before the tests run? *)\n"
+            f"Definition setup_registered_as_visited : bool := {str(flag).lower()}.\n")
+
+
 def translate(src_text):
     tree = ast.parse(src_text)
     getters = _getters(tree)
@@ -453,6 +485,7 @@ def translate(src_text):
     lines.append(_sender(tree))
     lines.append(_resolve_selectors(tree))
     lines.append(_call_sites(tree))
+    lines.append(_setup_visited(tree))
     return "\n".join(lines), {"getters": getters}
 
 
